@@ -13,6 +13,7 @@ import (
 	"strings"
 	"time"
 
+	"verif/hdr"
 	"verif/mc"
 	"verif/netsim"
 
@@ -40,6 +41,10 @@ func stagePrefix(stage string) (netsim.Options, []string) {
 		return netsim.Options{TxManager: true, NoSplits: true}, nil
 	case "handshake-nosplits":
 		return netsim.Options{TxManager: true, NoSplits: true, HeaderHandler: true}, []string{"version", "verack"}
+	case "ready-universe":
+		// a ready peer on a repository with proof-of-work checking off (own repository per case), so
+		// that the labelled header universe can build fork trees through headers messages
+		return netsim.Options{TxManager: true, Universe: true, HeaderHandler: true}, []string{"version", "verack", "headers[bsv-split]"}
 	case "ready":
 		return netsim.Options{}, []string{"version", "verack", "headers[bsv-split]"}
 	case "ready-tx":
@@ -215,6 +220,31 @@ func buildCases(thorough bool) []crashCase {
 			addCase(st, sp.name, sp.b, "")
 		}
 	}
+	// well-formed headers messages that build fork trees: every ordered triple of six short chains
+	// of the labelled universe (two chains on genesis, forks off the first and second header of the
+	// first chain, heavier and lighter ones): reorganisations to child, parent, sibling and cousin
+	// branches all happen inside the handler goroutine of the connection
+	{
+		chains := [][]string{{"G/a", "G/a/a"}, {"G/H", "G/H/H"}, {"G/a/H", "G/a/H/H"}, {"G/b"}, {"G/a/a/H", "G/a/a/H/H"}, {"G/a/a/a"}, {"G/H/b", "G/H/b/H", "G/H/b/H/H"}}
+		msg := func(labels []string) []byte {
+			var hs []*wire.BlockHeader
+			for _, l := range labels {
+				hs = append(hs, hdr.Get(l).Header)
+			}
+			return netsim.Frame(wire.CmdHeaders, netsim.HeadersPayload(hs...))
+		}
+		for i, a := range chains {
+			for j, b := range chains {
+				for k, c := range chains {
+					if i == j || j == k || i == k {
+						continue
+					}
+					stream := append(append(append([]byte{}, msg(a)...), msg(b)...), msg(c)...)
+					addCase("ready-universe", fmt.Sprintf("headers%v+headers%v+headers%v", a, b, c), stream, "ping")
+				}
+			}
+		}
+	}
 	if thorough {
 		// ordered pairs (mutated, valid): the mutated bytes followed by a valid message
 		for _, st := range []string{"ready-tx", "ready-block"} {
@@ -257,7 +287,12 @@ func crashWorker() {
 		if opt.NoSplits {
 			wit = witnessNoSplits
 		}
-		s := netsim.StartShared(opt, wit)
+		var s *netsim.Session
+		if opt.Universe {
+			s = netsim.Start(opt) // its own repositories: the header tree of one case must not reach the next
+		} else {
+			s = netsim.StartShared(opt, wit)
+		}
 		for _, l := range prefix {
 			if isAction(l) {
 				doAction(s, l)
@@ -479,7 +514,7 @@ func runC15(tier string) int {
 		Coverage: map[string]any{
 			"evaluations":                   len(cases),
 			"distinct_nontrivial":           nontrivial,
-			"rule":                          "complete structured enumeration: 8 session stages (before handshake, handshake complete, ready, ready with tx manager, ready with a block requested, the latter with the stream delivered in pieces of at most 7 bytes, and before / after the handshake on a repository without chain split points - any network but mainnet - whose verification request has an empty locator) x {19 base messages x frame mutations (11 declared lengths, corrupt checksum / magic / command, truncation at every header field boundary and inside the payload, 9 hostile values for the leading count), extended headers for tx/block/headers/unknown with 8 declared lengths up to 2^64-1 and no data, headers with 14 bits encodings x 4 timestamps, headers with 14 hostile per-header transaction counts and with a well-framed payload ending at every offset 0..81, transactions (classic, extended, inside the requested block) with 9 hostile values for each of input count / input script length / output count / output script length, blocks with hostile transaction counts, a block whose frame length is shorter than its content}; thorough adds ordered (mutated, valid) pairs. Every case is one run of a real node (sharing repositories with a healthy witness node) in a worker process under an 8 GB address-space limit; every case is a distinct hostile input (all non-trivial); a dying worker identifies the case, which is re-run alone to confirm",
+			"rule":                          "complete structured enumeration: 8 session stages (plus a ninth, a ready peer on a repository with proof-of-work checking off, which receives every ordered triple of seven short header chains of the labelled universe as three well-formed headers messages: reorganisations to child, parent, sibling and cousin branches inside the connection's handler goroutine) (before handshake, handshake complete, ready, ready with tx manager, ready with a block requested, the latter with the stream delivered in pieces of at most 7 bytes, and before / after the handshake on a repository without chain split points - any network but mainnet - whose verification request has an empty locator) x {19 base messages x frame mutations (11 declared lengths, corrupt checksum / magic / command, truncation at every header field boundary and inside the payload, 9 hostile values for the leading count), extended headers for tx/block/headers/unknown with 8 declared lengths up to 2^64-1 and no data, headers with 14 bits encodings x 4 timestamps, headers with 14 hostile per-header transaction counts and with a well-framed payload ending at every offset 0..81, transactions (classic, extended, inside the requested block) with 9 hostile values for each of input count / input script length / output count / output script length, blocks with hostile transaction counts, a block whose frame length is shorter than its content}; thorough adds ordered (mutated, valid) pairs. Every case is one run of a real node (sharing repositories with a healthy witness node) in a worker process under an 8 GB address-space limit; every case is a distinct hostile input (all non-trivial); a dying worker identifies the case, which is re-run alone to confirm",
 			"exhaustive":                    true,
 			"outcomes":                      outcomes,
 			"samples":                       samples,
